@@ -12,6 +12,9 @@ Inductive tev :=
 | TCommit (p : pres)                             (* the worker called batchingState.Commit; which datastore write batch failed *)
 | TDirect (id : N) (o : wop) (p : pres) (ok : bool)  (* LogPin/LogUnpin without batching and its result *)
 | TReject (id : N) (o : wop)                     (* LogPin refused the operation with an error other than a full queue: it cannot be serialised *)
+| TStopCommit (p : pres)                         (* the worker called Commit while Shutdown was waiting for it *)
+| TShutRefused (id : N) (o : wop)                (* LogPin/LogUnpin after Shutdown: refused with an error *)
+| TRestart                                       (* Shutdown returned; a new Consensus was started on the same datastore *)
 | TNoAge                                         (* batch non-empty, more than 4 x MaxBatchAge waited, no commit attempted *)
 | TStuck.                                        (* an accepted, queued operation was not taken by the worker (watchdog) *)
 
@@ -74,6 +77,24 @@ Definition replay_step (c : tcfg) (nofire : bool) (slack : N) (s : rst) (te : N 
             mk_rst (tstep c (tstep c tb1 (Ev Fire)) (Ev (OnTimer (pres_ok p)))) l' calls (r_bad s || negb okp || early || overdue)
           else mk_rst tb (r_l s) (r_calls s) true      (* a commit from the timer branch of a timer that cannot fire *)
       end
+  | TStopCommit p =>
+      if blocked b then mk_rst tb (r_l s) (r_calls s) true else
+      let okp := pres_possible (r_l s) (cur_dc (r_l s)) p in
+      let '(l', hs) := batch_commit (r_l s) p in
+      let calls := r_calls s ++ map tracker_call hs in
+      match pc b, queue b with
+      | PCommit, _ => mk_rst (tstep c tb (Ev (SizeCommit (pres_ok p)))) l' calls (r_bad s || negb okp)
+      | PIdle, [] =>       (* the closed queue is empty: the last commit of the worker, only when the batch holds something *)
+          mk_rst (tstep c tb (Ev (StopCommit (pres_ok p)))) l' calls (r_bad s || negb okp || (cur b =? 0))
+      | PIdle, _ :: _ => mk_rst tb (r_l s) (r_calls s) true
+      end
+  | TShutRefused id o => mk_rst (tstep c tb (Ev (Reject (id, o)))) (r_l s) (r_calls s) (r_bad s)
+  | TRestart =>
+      (* the repaired Shutdown returns when everything accepted has been taken and committed; the new worker starts
+         from scratch, the datastore (set, heads) is what it was, curDelta (memory) is gone *)
+      let clean := match queue b, pend b, pc b with [], [], PIdle => true | _, _, _ => false end in
+      mk_rst tinit (mk_lrep (l_st (r_l s)) (l_height (r_l s)) (l_next (r_l s)) (l_lastf (r_l s)) None) (r_calls s)
+             (r_bad s || negb clean)
   | TDirect id o p ok =>
       let '(l', hs, okm) := direct_op (r_l s) o p in
       mk_rst tb l' (r_calls s ++ map tracker_call hs)
@@ -98,7 +119,7 @@ Definition tcall_eqb (a b : tcall) : bool :=
   | _, _ => false end.
 Definition has_stuck (t : list (N * tev)) : bool := existsb (fun e => match snd e with TStuck => true | _ => false end) t.
 
-Definition h1_cfg (fixed : bool) (h : h1) : tcfg := mk_tcfg (mk_bcfg (h_qcap h) (h_size h) fixed fixed) (h_age h) false.
+Definition h1_cfg (fixed : bool) (h : h1) : tcfg := mk_tcfg (mk_bcfg (h_qcap h) (h_size h) fixed fixed fixed) (h_age h) false.
 
 Definition model_eqb (fixed : bool) (h : h1) : bool :=
   let s := replay (h1_cfg fixed h) (h_nofire h) (h_slack h) (h_trace h) in
@@ -148,6 +169,17 @@ Definition acc_step (qcap maxsize : N) (a : acc) (e : tev) : acc :=
       mk_acc (a_wait a) (a_refused a) (a_cnt a) (a_expect a) (a_pend a) (if ok then a_done a ++ [[o]] else a_done a)
              (if ok then a_undet a else op_key o :: a_undet a)
              (e_order a) (e_refuse a) (e_size a) (e_age a) (e_stuck a)
+  | TStopCommit p =>
+      if pres_ok p then mk_acc (a_wait a) (a_refused a) 0 false [] (a_done a ++ [a_pend a]) (a_undet a)
+                               (e_order a) (e_refuse a) (e_size a) (e_age a) (e_stuck a)
+      else mk_acc (a_wait a) (a_refused a) (a_cnt a) false (a_pend a) (a_done a) (a_undet a)
+                  (e_order a) (e_refuse a) (e_size a) (e_age a) (e_stuck a)
+  | TShutRefused id o => mk_acc (a_wait a) (id :: a_refused a) (a_cnt a) (a_expect a) (a_pend a) (a_done a) (a_undet a)
+                                (e_order a) (e_refuse a) (e_size a) (e_age a) (e_stuck a)
+  | TRestart =>          (* what was accepted and is neither taken nor committed when Shutdown returns is lost *)
+      let lost := match a_wait a, a_pend a with [], [] => false | _, _ => true end in
+      mk_acc [] (a_refused a) 0 false [] (a_done a) (a_undet a)
+             (e_order a || lost) (e_refuse a) (e_size a || a_expect a) (e_age a) (e_stuck a)
   | TReject id o =>      (* refused with an error: must have no effect; legitimate only for an operation that cannot be stored *)
       mk_acc (a_wait a) (id :: a_refused a) (a_cnt a) (a_expect a) (a_pend a) (a_done a) (a_undet a)
              (e_order a) (e_refuse a || negb (is_bad o)) (e_size a) (e_age a) (e_stuck a)
@@ -225,7 +257,7 @@ Definition monitor_limit (h : h1) : N :=
   let q := N.max 1 (h_qcap h) in
   let l4 := h_slack h / 4 in
   let lp := h_slack h / (4 * q) in
-  accept_to_commit_limit (mk_tcfg (mk_bcfg q (h_size h) true true) (h_age h) false) l4 l4 lp lp.
+  accept_to_commit_limit (mk_tcfg (mk_bcfg q (h_size h) true true true) (h_age h) false) l4 l4 lp lp.
 Definition late_ops (h : h1) : list (N * N) :=
   if 0 <? h_slack h then filter (fun av => (snd av <? never_seen) && (fst av + monitor_limit h <? snd av)) (h_lat h) else [].
 
